@@ -8,4 +8,10 @@ def build(repo, tier, seed):
     b["vcs"] += vcs
     b["syntactic"] += syn
     b["undecided"] += und
+    from . import chained_effect
+    v4, u4 = chained_effect.build(repo)
+    b["vcs"] += v4
+    b["undecided"] += u4
+    b["assumptions"].append("ChainedEffect (the effect a dataset wraps its effects in) validates iff every member validates, applies every member in order to the same value and options, "
+                            "explains the union: specification obligations on its real bodies (group ChainedEffect:spec)")
     return b
